@@ -95,7 +95,45 @@ func (propC06) Gen(r *Rng, tier string) *World {
 	}
 	g := NewGen(r, k)
 	w := &World{Prop: "C06"}
-	if r.P(0.7) {
+	if r.P(0.03) && len(g.by[TBool]) > 0 {
+		// very wide and/or nests: each operator within the operand limit, the
+		// flattened one around or beyond it (Compile may reject; what it
+		// accepts must evaluate)
+		name := PickS(r, []string{"and", "or", "&", "||"})
+		inner := PickS(r, []string{name, name, "and", "or"})
+		leaf := func() *Node {
+			if r.P(0.9) {
+				return Var(g.by[TBool][r.Intn(len(g.by[TBool]))])
+			}
+			return Lit(VB(r.P(0.5)))
+		}
+		total := r.Range(100, 270)
+		var kids []*Node
+		for total > 0 {
+			if r.P(0.5) {
+				kids = append(kids, leaf())
+				total--
+				continue
+			}
+			n := r.Range(2, 120)
+			var sub []*Node
+			for i := 0; i < n; i++ {
+				sub = append(sub, leaf())
+			}
+			kids = append(kids, Op(inner, sub...))
+			total -= n
+		}
+		if len(kids) > 120 {
+			kids = kids[:120]
+		}
+		if len(kids) < 2 {
+			kids = append(kids, leaf(), leaf())
+		}
+		w.Prog = Op(name, kids...)
+		if r.P(0.3) {
+			w.Prog = Op("not", w.Prog)
+		}
+	} else if r.P(0.7) {
 		for i := 0; i < 10; i++ {
 			g.left = 200
 			if k.Budget > 0 {
